@@ -241,7 +241,11 @@ def array_task(kind, deriv, dtype='float64', quantities=('isna', 'bounds', 'tota
     fa, fl = DERIVS[deriv]
     if 'sindex' in quantities and len(src) and kind != 'point':
         src.build_sindex(page_size=2)           # index state "built on the parent, then derived"
-    arr = fa(src)
+    try:
+        arr = fa(src)
+    except Exception as e:  # noqa: BLE001  - a valid selection must not raise: replayed on the real code
+        return {'status': 'sat', 'solver_s': 0.0, 'queries': 1, 'formula_size': 1, 'encoded': {}, 'verdicts': {}, 'specs': specs,
+                'findings': [('elements', 'derivation', 'raises', f'{type(e).__name__}: {str(e)[:160]}')], 'symex_s': round(time.time() - t0, 2)}
     expect_ids = fl(list(range(len(src))))
     it = ts.install(Interp())
     it.stubs['sqrt'] = Stub(c14.sqrt_stub, 'math.sqrt -> uninterpreted sqrt_uf')
@@ -555,7 +559,12 @@ def replay_finding(kind, specs, deriv, dtype, finding):
             form = f"scalar[{form.split()[1]}]"
     box = tuple(model.get(k, d) for k, d in zip(('bx0', 'by0', 'bx1', 'by1'), (-100, -100, 100, 100))) if model else (-100, -100, 100, 100)
     src = concrete_array(kind, specs, dtype, model)
-    arr = DERIVS[deriv][0](src)
+    try:
+        arr = DERIVS[deriv][0](src)
+    except Exception as e:  # noqa: BLE001
+        ids = DERIVS[deriv][1](list(range(len(src))))
+        return True, {'kind': kind, 'specs': specs, 'derivation': deriv, 'dtype': dtype, 'quantity': 'elements', 'form': 'derivation',
+                      'got': f'raises {type(e).__name__}: {str(e)[:160]}', 'expected': f'the elements {ids} of the source', 'elements': []}
     wit = {'kind': kind, 'specs': specs, 'derivation': deriv, 'dtype': dtype, 'quantity': quantity.split('[')[0], 'form': form,
            'elements': [None if arr[j] is None else (arr[j].data.as_py() if kind != 'point' else arr[j].flat_values.tolist()) for j in range(len(arr))],
            'box': box}
